@@ -43,6 +43,7 @@ LEN_CALLS = (
 
 NON_ORIGIN_SUFFIX = ('::new', '::from_elem', '::with_capacity', '::default', '::from_str', '::new_display', '::new_debug', '::from', '::into', '::of', '::generator', '::identity')
 
+ELEMENT_MAPPERS = ('std::iter::Iterator::map', 'std::iter::Iterator::filter_map', 'std::iter::Iterator::flat_map', 'std::iter::Iterator::map_while')
 ITER_TY_MARKERS = ('IterMut', 'Zip<', 'Enumerate<', 'ChunksMut', 'ChunksExactMut', 'Rev<', 'Skip<', 'Take<', 'StepBy<', 'Chain<', 'Peekable<')
 
 NARROW_BINOPS = ('BitAnd', 'Rem', 'Shr', 'Div')
@@ -324,6 +325,38 @@ class FnDep:
             summ = self.eng.summary(target)
             if summ is not None:
                 return self._apply_summary(t, summ)
+        # element-transforming iterator adaptor with a closure whose body is known: the elements of the result are what the closure
+        # returns (its captures, constants, origins, and the receiver's elements where it uses its argument); the receiver otherwise
+        # only determines how many elements there are
+        if callee in ELEMENT_MAPPERS and len(t['args']) == 2 and t['args'][1]['k'] in ('copy', 'move') and not t['args'][1]['pl'].get('p'):
+            ci = self._closure_info(t['args'][1]['pl']['l'])
+            cfd = self.eng.fndep(ci[0]) if ci is not None else None
+            if cfd is not None and cfd is not self:
+                recv = self.read_op(t['args'][0])
+                res = {a if a[0] in ('len', 'narrow') else ('len', a) for a in recv}
+                csum = cfd.make_summary()
+                for path, atoms in csum['ret'].items():
+                    for a in atoms:
+                        st = strip(a)
+                        if st[0] == 'p' and st[1] == 1:
+                            k = st[2][0] if st[2] else None
+                            if k is not None and str(k).isdigit() and int(k) < len(ci[1]):
+                                res |= self.read_op(ci[1][int(k)])
+                            else:
+                                for c in ci[1]:
+                                    res |= self.read_op(c)
+                        elif st[0] == 'p':
+                            res |= recv
+                        else:
+                            res.add(a)
+                muts = []
+                for c in ci[1]:
+                    if c['k'] in ('copy', 'move') and self.body.local_ty(c['pl']['l']).startswith('&mut '):
+                        muts.append(self.resolve_place(c['pl']))
+                ch |= self.write_place(t['dst'], res)
+                for (r, p_) in muts:
+                    ch |= self.write(r, p_, res | recv)
+                return ch
         # external (or unresolvable) call
         per, muts = self._arg_atoms_and_muts(t['args'])
         allat = set()
